@@ -40,7 +40,7 @@ def malformed(rng, text):
     return sqlgen.mutate(rng, sqlgen.mutate(rng, text))
 
 
-CLASS_REPS = ["7", "2.5", "'10'", "\"q\"", "NULL", "TRUE", "x'1F'", "b'10'", "0x1F", "0b1", "1e3", "1_0", "٣", "zz", "`z z`", "SELECT", "FROM", "AS", "+", "-2", ",", "(1)", "()", "[1]", ".",
+CLASS_REPS = ["`a.b.c`", "'a.b.c'", "`a..b`", "`.`", "`a.`", "``", "`s`.`t`.`u`", "a.b.c.d", "\"a.b\"", "7", "2.5", "'10'", "\"q\"", "NULL", "TRUE", "x'1F'", "b'10'", "0x1F", "0b1", "1e3", "1_0", "٣", "zz", "`z z`", "SELECT", "FROM", "AS", "+", "-2", ",", "(1)", "()", "[1]", ".",
               "=", "*", "CASE", "NOT", "(SELECT 1)"]
 
 
@@ -53,11 +53,14 @@ def class_substitutions(rng, text, positions):
     for code, piece in c09.segments(text):
         if code:
             spans += [(pos + m.start(), pos + m.end()) for m in re.finditer(r"\d+(?:\.\d+)?|\w+|[^\s\w]", piece)]
+        elif piece:
+            spans.append((pos, pos + len(piece)))       # a quoted string / back-quoted name is one token
         pos += len(piece)
     if not spans:
         return []
     ints = [sp for sp in spans if text[sp[0]:sp[1]].isdigit()]
-    chosen = [rng.choice(spans) for _ in range(positions)] + ints[:3]
+    quoted = [sp for sp in spans if text[sp[0]] in "`'\""]
+    chosen = [rng.choice(spans) for _ in range(positions)] + ints[:3] + ([rng.choice(quoted)] if quoted else [])
     out = []
     for a, b in chosen:
         for rep in CLASS_REPS:
